@@ -354,6 +354,40 @@ for _pid, _fn, _floor, _txt in _ALGO:
     PROPS[_pid]["decides"] += "; " + _txt
 PROPS["C18"]["decides"] += "; node statements print to_index(node.id())"
 
+_reset = _cached("reset_all", algo_rules.reset_complete)
+_bover = _cached("build_overrides", deleg.build_overrides)
+for _pid, _pred, _fl, _txt in (
+        ("C08", lambda f, s: "visit::traversal" in f, 3, "Dfs/DfsPostOrder/Topo::reset re-initialise every state field"),
+        ("C09", lambda f, s: "visit::traversal" in f, 3, "a reused DfsSpace is fully reset (Dfs::reset clears map and stack)"),
+        ("C01", lambda f, s: f.startswith("graph_impl::Graph::"), 1, "Graph::clear re-initialises every field"),
+        ("C02", lambda f, s: "StableGraph" in f, 1, "StableGraph::clear re-initialises every field"),
+        ("C03", lambda f, s: "GraphMap" in f, 1, "GraphMap::clear re-initialises both maps"),
+        ("C04", lambda f, s: "MatrixGraph" in f, 1, "MatrixGraph::clear re-initialises cells, ids and the counter")):
+    PROPS[_pid]["rules"].append(sub(_reset, _pred, _fl))
+    PROPS[_pid]["decides"] += "; " + _txt
+for _pid, _pred in (("C01", lambda f, s: "graph_impl::Graph" in f and "stable" not in f), ("C02", lambda f, s: "StableGraph" in f), ("C05", lambda f, s: "adj::List" in f)):
+    PROPS[_pid]["rules"].append(sub(_bover, _pred, 1))
+    PROPS[_pid]["decides"] += "; Build::add_edge is overridden (the trait default update_edge would merge parallel edges)"
+
+_ctrl = _cached("table.control_flow", table.control_flow)
+PROPS["C08"]["rules"].append(sub(_ctrl, lambda f, s: True, 8))
+PROPS["C08"]["decides"] += "; ControlFlow impls' decision tables (Control, (), Result<C,E>: should_break / should_prune)"
+PROPS["C17"]["rules"].append(_serde_only(sub(_cached("algo.untrusted_alloc", algo_rules.untrusted_alloc), lambda f, s: True, 1)))
+PROPS["C17"]["decides"] += "; no allocation in the deserialisation code is sized by an input-provided length (SeqAccess::size_hint)"
+PROPS["C11"]["rules"].append(sub(_cached("algo.negcycle", algo_rules.negative_cycle_suffix), lambda f, s: True, 2))
+PROPS["C11"]["decides"] += "; find_negative_cycle keeps the walk from the first repeated node onwards (path[pos..])"
+_idit = _cached("guard.id_iterator", guard.id_iterator)
+for _pid in ("C04", "C06"):
+    PROPS[_pid]["rules"].append(sub(_idit, lambda f, s: True, 3))
+    PROPS[_pid]["decides"] += "; MatrixGraph's IdIterator skips removed ids in a loop and yields only ids < upper_bound"
+# C07 (algorithms depend only on the abstract graph) also carries every algorithm-specific structural clause
+for _pid, _fn, _floor, _txt in _ALGO:
+    if _pid in ("C12", "C20", "C16", "C10", "C15", "C09"):
+        PROPS["C07"]["rules"].append(sub(_cached("algo." + _fn.__name__, _fn), lambda f, s: True, _floor))
+PROPS["C07"]["rules"] += [sub(_cached("algo.negcycle", algo_rules.negative_cycle_suffix), lambda f, s: True, 2), sub(_visit, lambda f, s: True, 14)]
+PROPS["C07"]["decides"] += "; plus the algorithm-specific structural clauses listed under C09-C12, C15, C16, C20 (visit-once guards, MST stream positions, " \
+                           "low-link rule, unfiltered k-shortest relaxation, residual BFS endpoint, labeling write-back, simple-path target exclusion)"
+
 WITNESSES = {
     "C01": ["frozen_no_add_node", "graph_nodes_private"],
     "C02": ["stable_not_compact", "stable_counts_private"],
